@@ -267,3 +267,35 @@ func VHC16Concrete() {
 	checkResult(c, k, sres{kind: resNum, num: float64(n)}, "C16 split('') yields one piece per character")
 	vh.Reach("concrete sample evaluated")
 }
+
+// VHC16Fresh: what a method returns is a function of receiver and arguments alone: the
+// same call made again after its first result was written into (element stores, push,
+// member stores) gives what a first call gives, and the receiver is unchanged.
+func VHC16Fresh() {
+	n := 1 + vh.Choose("n", 3)
+	s := vh.Bytes("s", n)
+	for i := 0; i < n; i++ {
+		vh.Assume(vh.InRange(s[i], ' ', '~'))
+		vh.Assume(vh.Not(vh.OneOf(s[i], "\"\\")))
+	}
+	sep := vh.Bytes("sep", vh.Choose("seplen", 2))
+	doc := func() map[string]any {
+		return map[string]any{"s": s, "sep": sep, "o": map[string]any{"a": s, "b": []any{1.0, s}}, "l": []any{s, "b", s}}
+	}
+	calls := []struct{ call, spoil string }{
+		{"$.s.split($.sep)", "r[0] = 'CHANGED'; r[1] = 'TOO'; r.push('more'); r.popfirst()"},
+		{"$.o.pluck('a', 'b', 'zz')", "r.a = 'CHANGED'; r.b = 'CHANGED'; r.zz = 1; r.extra = 2"} /* not r.b[1] = ...: containers are shared (C09), the plucked object holds the original's array */,
+		{"$.l.sort()", "r[0] = 'CHANGED'; r.pop(); r[5] = 1"},
+		{"$.s.upper()", "r = 'CHANGED'"},
+		{"num($.s)", "r++"},
+		{"json($.o)", "r = r + 'CHANGED'"},
+	}
+	c := calls[vh.Choose("call", len(calls))]
+	again := "{ r = " + c.call + "; " + c.spoil + "; q = " + c.call + "; print q; print $.s, $.o, $.l }"
+	first := "{ q = " + c.call + "; print q; print $.s, $.o, $.l }"
+	o2, k2 := runProg(first, doc()) // the reference run comes first: state kept between runs must not help either
+	o1, k1 := runProg(again, doc())
+	vh.Reach("repeated call compared")
+	vh.Assert(k1 == OK && k2 == OK, "C16: the calls succeed: "+c.call)
+	vh.Assert(o1 == o2, "C16: a repeated call is not affected by writes into the earlier result, and the receiver is unchanged: "+c.call)
+}
